@@ -288,10 +288,10 @@ class Spec(core.PropSpec):
         plan = dict(world=w, mode=mode, list_seed=rf.getrandbits(24), sched_seed=rf.getrandbits(24))
         if mode == "sweep":
             plan["sweep_only"] = None
-            plan["k1s"] = [rf.randint(0, 40), rf.randint(0, 12)]
+            plan["k1s"] = [rf.randint(0, 40), rf.randint(0, 12)] + ([rf.randint(0, 60), rf.randint(0, 25)] if tier != "quick" else [])
             plan["sweep_io_errors"] = rf.random() < 0.35  # additionally EIO / ENOSPC at every primitive
         else:
-            plan["attempts"] = [gen_fault(rf, 45) for _ in range(rf.choice([1, 1, 2, 2, 3, 4]))]
+            plan["attempts"] = [gen_fault(rf, 45) for _ in range(rf.choice([1, 1, 2, 2, 3, 4] + ([5, 6] if tier != "quick" else [])))]
             plan["clean_calls"] = rf.choice([1, 2, 2, 3])
         return plan
 
